@@ -21,6 +21,7 @@ func runAPI(rec *recorder, sc *Scenario) error {
 	s := newSched(rec, sc, 0, 1)
 	defer s.close()
 	reg := mkReg(s)
+	sc.bpOK = sc.BadPolicy != "" && offerBadPolicy(reg, s, sc.BadPolicy)
 	v, err := newVault(ctx, reg)
 	if err != nil {
 		return err
